@@ -102,7 +102,7 @@ func httpBody(op, token string) ([]byte, bool) {
 			if (o.KeyID != "" && o.KeyID != sub) || sub == "" {
 				return nil, false
 			}
-			if o.CertType != "" {
+			if o.CertType == "user" || o.CertType == "host" { // anything else would be refused as an invalid body, before the token is looked at
 				m["certType"] = o.CertType
 			}
 			if len(o.Principals) > 0 {
